@@ -232,3 +232,47 @@ def strip(text):
         res.append(l.rstrip())
         i += 1
     return '\n'.join(res)
+
+
+def normalize_expanded(text):
+    """-Zunpretty=expanded breaks lines inside expressions; re-flow: one statement / brace per line."""
+    out = []
+    i = 0
+    n = len(text)
+    mask = code_mask(text)
+    buf = []
+    for i, ch in enumerate(text):
+        if mask[i] and ch in ' \t\n':
+            if buf and buf[-1] != ' ':
+                buf.append(' ')
+            continue
+        buf.append(ch)
+    s = ''.join(buf)
+    # break after ; { } (outside parens/brackets)
+    res = []
+    depth = 0
+    cur = []
+    m2 = code_mask(s)
+    for i, ch in enumerate(s):
+        cur.append(ch)
+        if not m2[i]:
+            continue
+        if ch in '([':
+            depth += 1
+        elif ch in ')]':
+            depth -= 1
+        elif ch in ';{}' and depth == 0:
+            res.append(''.join(cur).strip())
+            cur = []
+    if ''.join(cur).strip():
+        res.append(''.join(cur).strip())
+    # indent
+    lines = []
+    ind = 0
+    for l in res:
+        if l.startswith('}'):
+            ind = max(0, ind - 1)
+        lines.append('  ' * ind + l)
+        if l.endswith('{'):
+            ind += 1
+    return '\n'.join(lines)
